@@ -256,10 +256,11 @@ def opHeader (payload : String) : String :=
       let ex ← match optField j "except" with
         | some v => do let arr ← v.getArr?; let l ← arr.toList.mapM (·.getNat?); pure (some l)
         | none => pure none
-      pure (dc, ih, jh, infos, ex) : Except String _) with
+      let upd := (optField j "update").map (fun v => v == Json.bool true) |>.getD false
+      pure (dc, ih, jh, infos, ex, upd) : Except String _) with
     | .error e => "bad-case " ++ e
-    | .ok (dc, ih, jh, infos, ex) =>
-      match queryHeader dc ih jh infos ex with
+    | .ok (dc, ih, jh, infos, ex, upd) =>
+      match (if upd then .ok (updateHeader ih) else queryHeader dc ih jh infos ex) with
       | .error _ => "{\"err\":\"star-and-alias\"}"
       | .ok none => "{\"header\":null}"
       | .ok (some h) => (Json.mkObj [("header", .arr (h.map (fun s => Json.str (String.ofList s))).toArray)]).compress
